@@ -102,6 +102,18 @@ CLAIMED = {
    note="JWS signature verification and exp enforcement are inside cryptojwt (field `unpack`, computed by the harness by calling cryptojwt directly); "
         "request_param and bearer_body methods not modelled; 'refused yields no tokens' is exercised through C02/C03 harnesses rather than here.",
    technique="Lean 4 proof (decision logic + monotone replay-cache invariant over request histories) + endpoint correspondence with concrete credentials", ref="6 C01"),
+ "C16": dict(
+   text="Lean theorems: by value — if a request object takes effect it verified under the identified client's keys, used an algorithm permitted for "
+        "that client (registered value, else the provider's list), names exactly that client, and ALL effective parameters are the object's; "
+        "unsigned objects are refused when a signing algorithm is registered; wrong key / non-permitted algorithm / other client refused. PAR — "
+        "par_one_shot: in every history of pushes, redemptions (any client, any URN, any number of replays) and clock advances each URN is "
+        "honoured at most once (induction with a freshness/no-duplicates invariant), unknown URNs refused; the missing lifetime and client "
+        "binding are a proved counter-example (known findings F-C16-c/d, replayed on every run). Tie: request objects built concretely with "
+        "cryptojwt across signer x inner client_id x registered-algorithm clients through the real authorization endpoint, and PAR histories "
+        "through the real pushed-authorization + authorization endpoints.",
+   note="JWS verification idealised (field `verifies` from the harness's knowledge of the signing key); the request_uri fetch transport is not driven "
+        "(its policy code predates the fix); JWE not modelled.",
+   technique="Lean 4 proof (decision logic + one-shot history invariant by induction) + endpoint correspondence with concrete request objects", ref="6 C16"),
 }
 NOT_YET = {}
 ALL = [f"C{i:02d}" for i in range(1, 21)]
